@@ -33,6 +33,18 @@ func init() {
 	})
 }
 
+// the last rejected path's error, as it read when it was returned
+type prevRec struct {
+	err  error
+	text string
+	path []string
+}
+
+var (
+	prevErrs [4]prevRec
+	prevNext int
+)
+
 type sn struct {
 	Kind     string `json:"kind"` // container list leaf leaf-list choice case
 	Name     string `json:"name"`
@@ -233,6 +245,9 @@ type rec struct {
 	Path       []string `json:"path"`
 	Incomplete bool     `json:"incomplete"`
 	Prior      []bool   `json:"prior,omitempty"` // modes in which the same path was validated before on this schema
+	// Earlier: a path that was rejected before this one (same schema, strict mode); its error is read
+	// again after this path's validation
+	Earlier []string `json:"earlier,omitempty"`
 }
 
 var compiled = map[int]schema.ModelSet{}
@@ -321,6 +336,34 @@ func check(r rec) (vs []engine.Violation, implOK, refOK bool) {
 	}()
 	implOK = err == nil && p == nil
 	shape := pathShape(r)
+	// an error that was returned earlier keeps saying what it said: the errors of the last four rejected
+	// paths are read again whenever a new rejection has been produced (errors are values of their own,
+	// not views of shared state)
+	if err != nil && p == nil {
+		for k := range prevErrs {
+			pe := &prevErrs[k]
+			if pe.err == nil {
+				continue
+			}
+			var now string
+			func() {
+				defer func() {
+					if recover() != nil {
+						now = "(panic while reading the error)"
+					}
+				}()
+				now = pe.err.Error()
+			}()
+			if now != pe.text {
+				r.Earlier = pe.path
+				mk("earlier-error-changes-after-a-later-validation", fmt.Sprintf("the error of path %q said %q; after the rejection of this path it says %q", pe.path, pe.text, now))
+				r.Earlier = nil
+				pe.err = nil
+			}
+		}
+		prevErrs[prevNext%len(prevErrs)] = prevRec{err, err.Error(), append([]string{}, r.Path...)}
+		prevNext++
+	}
 	switch {
 	case p != nil:
 		mk("panic:"+shape, fmt.Sprint(p))
@@ -630,6 +673,14 @@ func replay(c *engine.Ctx, sub string, raw json.RawMessage) []engine.Violation {
 				defer func() { recover() }()
 				ms.Validate(ctxT{inc}, nil, append([]string{}, r.Path...))
 			}()
+		}
+	}
+	if len(r.Earlier) > 0 {
+		// the earlier rejection first, in both modes (its error goes into the ring check() reads again)
+		for _, inc := range []bool{false, true} {
+			e := r
+			e.Path, e.Earlier, e.Incomplete, e.Prior = r.Earlier, nil, inc, nil
+			check(e)
 		}
 	}
 	vs, _, _ := check(r)
